@@ -33,7 +33,7 @@ REQUIRED_REACH = ['validated:plain', 'validated:stream', 'validated:rendered', '
                   'validated:304', 'validated:redirect', 'validated:404', 'validated:405', 'validated:500', 'validated:debug-500',
                   'validated:debug-404', 'validated:meta', 'validated:gzip', 'validated:cache', 'validated:head', 'validated:post',
                   'files-opened', 'files-closed-after-close', 'wrapper-stacks:depth>=2', 'wrapper-stacks:embedded',
-                  'wrapper-stacks:no-routes', 'reroute:raised', 'reroute:endpoint', 'reroute:relayed-verbatim']
+                  'wrapper-stacks:no-routes', 'wrapper-stacks:siblings', 'wrapper-stacks:siblings-share-unique-type', 'reroute:raised', 'reroute:endpoint', 'reroute:relayed-verbatim']
 NSHARDS = 8
 
 
@@ -281,11 +281,16 @@ def wrapper_case(rng):
     for i in range(n):
         spec = {'label': 'w%d' % i, 'type': 'W%d' % (rng.randrange(types_n) if rng.chance(0.3) else i), 'unique': rng.chance(0.8)}
         specs.append(spec)
-    shape = rng.pick(['flat', 'flat', 'embedded', 'embedded', 'no-routes', 'route-level'])
+    shape = rng.pick(['flat', 'flat', 'embedded', 'embedded', 'no-routes', 'route-level', 'siblings', 'siblings'])
     place = {}
     for s in specs:
         place[s['label']] = rng.pick({'flat': ['outer'], 'no-routes': ['outer'], 'embedded': ['outer', 'inner'],
-                                      'route-level': ['outer', 'route']}[shape])
+                                      'route-level': ['outer', 'route'], 'siblings': ['outer', 'inner', 'inner2', 'inner2', 'inner']}[shape])
+    if shape == 'siblings' and len(specs) >= 2 and rng.chance(0.6):
+        # the same unique type carried by an own instance in each sibling, none at the embedding level
+        specs[-1]['type'] = specs[-2]['type']
+        specs[-1]['unique'] = specs[-2]['unique'] = True
+        place[specs[-2]['label']], place[specs[-1]['label']] = 'inner', 'inner2'
     return {'shape': shape, 'specs': specs, 'place': place, 'add_later': rng.chance(0.3)}
 
 
@@ -307,6 +312,7 @@ def judge_wrappers(sh, case):
     specs = case['specs']
     outer = dedupe_ok([s for s in specs if case['place'][s['label']] == 'outer'])
     inner = dedupe_ok([s for s in specs if case['place'][s['label']] == 'inner'])
+    inner2 = dedupe_ok([s for s in specs if case['place'][s['label']] == 'inner2'])
     routel = dedupe_ok([s for s in specs if case['place'][s['label']] == 'route'])
     mk = lambda lst: [make_wrapper_mw(s['label'], s['type'], s['unique'], types) for s in lst]
     ep = lambda: Response('ok')
@@ -323,6 +329,11 @@ def judge_wrappers(sh, case):
         elif shape == 'route-level':
             app = Application([Route('/x', ep, middlewares=mk(routel)), Route('/y', ep)], middlewares=mk(outer))
             path = '/x'
+        elif shape == 'siblings':
+            sub1 = Application([Route('/x', ep)], middlewares=mk(inner))
+            sub2 = Application([Route('/x', ep)], middlewares=mk(inner2))
+            app = Application([('/sub', sub1), ('/sub2', sub2), Route('/y', ep)], middlewares=mk(outer))
+            path = case.get('path') or '/sub/x'
         else:
             sub = Application([Route('/x', ep)], middlewares=mk(inner))
             app = Application([('/sub', sub), Route('/y', ep)], middlewares=mk(outer))
@@ -333,6 +344,8 @@ def judge_wrappers(sh, case):
     env = probe.make_environ('GET', path)
     ex = probe.call_wsgi(validate.validator(app), env, catch=(Exception,))
     got = env.get('verif.wrappers', [])
+    if shape == 'siblings':
+        return judge_siblings(sh, case, specs, outer, inner, inner2, got, ex)
     # expectation: application list order; embedding application's before the embedded one's; a unique type once
     seen_types, expect = set(), []
     for s in outer + inner:          # route-level wrappers are outside the statement: position not judged
@@ -373,6 +386,45 @@ def judge_wrappers(sh, case):
             key = 'C13/wrappers-not-applied:application-without-routes'
         sh.violation(key, 'wrappers ran in order %r, expected %r (shape %s, outer %r, inner %r)'
                      % (got, expect, shape, [s['label'] for s in outer], [s['label'] for s in inner]), {'wrappers': case})
+
+
+def judge_siblings(sh, case, specs, outer, inner, inner2, got, ex):
+    """siblings: no order is stated between the two embedded applications, so the expectation is a set of
+    constraints: every unique type applied exactly once, each list's own order kept, the embedding application's
+    wrappers outside all embedded ones"""
+    label_type = dict((s['label'], s['type']) for s in specs)
+    unique_types = set(s['type'] for s in specs if s['unique'])
+    sh.case({'wrappers': case}, nontrivial=bool(inner and inner2), klass='wrappers:siblings',
+            sample={'case': case, 'observed': got})
+    if inner and inner2:
+        sh.hit('wrapper-stacks:siblings')
+        if set(s['type'] for s in inner if s['unique']) & set(s['type'] for s in inner2 if s['unique']):
+            sh.hit('wrapper-stacks:siblings-share-unique-type')
+    if ex.exc is not None:
+        sh.violation('C13/wrapper-stack-exchange', '%r: %s' % (case, probe.safe_repr(ex.exc)), {'wrappers': case})
+        return
+    problems = []
+    for t in unique_types:
+        n = sum(1 for g in got if label_type[g] == t)
+        present = any(s['type'] == t for s in outer + inner + inner2)
+        if present and n != 1:
+            problems.append('unique type %s applied %d times' % (t, n))
+    for name, lst in (('outer', outer), ('first embedded', inner), ('second embedded', inner2)):
+        want = [s['label'] for s in lst]
+        seen = [g for g in got if g in want]
+        # labels dropped by the uniqueness rule may be missing; the remaining ones keep the list's order
+        if seen != [w for w in want if w in seen]:
+            problems.append('%s application order %r, observed %r' % (name, want, seen))
+    outer_labels = [s['label'] for s in outer]
+    if outer_labels and got:
+        last_outer = max([i for i, g in enumerate(got) if g in outer_labels] or [-1])
+        first_inner = min([i for i, g in enumerate(got) if g not in outer_labels] or [len(got)])
+        if last_outer > first_inner:
+            problems.append('an embedded application\'s wrapper runs outside the embedding one\'s')
+    if problems:
+        sh.violation('C13/wrapper-order:siblings', 'wrappers ran %r (outer %r, embedded %r and %r): %s'
+                     % (got, outer_labels, [s['label'] for s in inner], [s['label'] for s in inner2], '; '.join(problems)),
+                     {'wrappers': case})
 
 
 # ---- RerouteWSGI ----------------------------------------------------------------------------------------------------
